@@ -55,3 +55,20 @@ def hist(out, label, mode, args, nworkers=12, recs_per_chunk=4, stall_s=30, home
             g = json.loads(r)
             out.sample(dict(history_prefix=[s["c"]["op"] + ":" + "".join(s["c"]["a"]) for s in g["steps"][:12]]))
     return files
+
+
+def mc_vfs(out, cfg, workers=8):
+    res = vlib.tlc_mc("MC_Vfs", cfg + ".cfg", workers=workers, coverage=False)
+    out.add_mc(cfg, res)
+    return res
+
+
+def crosscheck(out, label, summary, mc):
+    """Reachable-set sandwich: every real transition was accepted by the specification (so real states are
+    specification states by induction); equal counts then make the two reachable sets equal."""
+    if summary is None:
+        return
+    cc = dict(label=label, real_states=summary["states"], spec_states=mc["distinct"], equal=summary["states"] == mc["distinct"])
+    out.cov.setdefault("reachable_set_crosscheck", []).append(cc)
+    if summary["states"] != mc["distinct"]:
+        out.add_violation(["reachable-set", label, "real=%d" % summary["states"], "spec=%d" % mc["distinct"]], record=cc, validator="crosscheck")
